@@ -125,6 +125,16 @@ CHECKS = {
                      "slice of depth-2 trees; each tree is compiled and played, stored value and printed text are compared.",
                 note="floats only where exactly representable; float remainder, POW beyond small integers, random functions: no claim",
                 technique="TLC enumeration of expression trees over spec InkValue, replayed through compiler + runtime"),
+    "C15": dict(level=FE, ref="5/C15",
+                text="A seeded mutation driver produces structural (delete / retype / duplicate / swap / renamed key / numeric "
+                     "extreme / deep nesting) and textual (truncation, corrupted bytes, nesting bombs, stray tokens) mutants of "
+                     "corpus story documents, fed to Story::new under both loaders, and of saves taken at explored points, fed "
+                     "to load_state. TLC validates the recorded runs: every call ends in ok or err (rule Fault.panic; an "
+                     "abnormal process exit matches no action) and after reset_state a complete base path plays as in the base "
+                     "run (InkHostAbs rule ResetA).",
+                note="the input space is explored by a mutation driver, not enumerated; TLA+ supplies the outcome rule and the "
+                     "reset oracle",
+                technique="mutation driver + TLA+ trace validation (InkHostTrace rules Fault.panic / ResetA)"),
 }
 
 NOT_YET = {}
